@@ -87,6 +87,9 @@ fn geodesy_params(params: &[(String, String)]) -> Vec<String> {
         if k == "k" && !k_done {
             k_done = true;
             out.push(format!("k_0={val}"));
+        } else if val.is_empty() {
+            // a flag
+            out.push(k.clone());
         } else {
             out.push(format!("{k}={val}"));
         }
@@ -143,7 +146,7 @@ fn render_proj(steps: &[PStep], globals: &[(String, String)], pipeline_inv: bool
     if pipeline {
         let mut head: Vec<String> = vec!["proj=pipeline".into()];
         for (k, val) in globals {
-            head.push(format!("{k}={val}"));
+            head.push(if val.is_empty() { k.clone() } else { format!("{k}={val}") });
         }
         if pipeline_inv {
             head.push("inv".into());
@@ -232,6 +235,13 @@ fn translate(h: &H, idx: u64, rng: &mut Rng) {
             2 => globals.push(("x".into(), "5".into())),
             _ => globals.push(("lon_0".into(), "3".into())),
         }
+    }
+    if pipeline && rng.chance(0.2) {
+        // a global given as a flag reaches every step as well (utm: southern hemisphere; helmert:
+        // exact rotation matrix)
+        let flag = *rng.pick(&["south", "exact"]);
+        let at = rng.below(globals.len() + 1);
+        globals.insert(at, (flag.into(), String::new()));
     }
     let proj = render_proj(&steps, &globals, pipeline_inv, pipeline, rng);
     let want = reference(&steps, &globals, pipeline_inv, pipeline);
